@@ -316,6 +316,116 @@ def tail_chain(src, r, idx):
     return recipe, None
 
 
+def mmp_chain(src, r, idx):
+    """a filesystem with multiple-mount protection: every read-write open writes the MMP block (and waits); a recorded run
+    has to record that block before its first write to it"""
+    os.makedirs(WORK, exist_ok=True)
+    img = os.path.join(WORK, "mmp_%d.img" % idx)
+    und = os.path.join(WORK, "mmp_%d.undo" % idx)
+    for f in (img, und):
+        if os.path.exists(f):
+            os.unlink(f)
+    T = lambda name: os.path.join(src, name)
+    env = e2v.tool_env(src, E2FSPROGS_UNDO_DIR=WORK)
+    bs = [1024, 4096][idx % 2]
+    e2v.sh([T("misc/mke2fs"), "-q", "-F", "-t", "ext4", "-O", "mmp", "-b", str(bs), img, "16M"], env=env, timeout=120)
+    orig = open(img, "rb").read()
+    step = [[T("misc/tune2fs"), "-z", und, "-L", "mmp", img], [T("debugfs/debugfs"), "-w", "-z", und, "-R", "mkdir m", img],
+            [T("e2fsck/e2fsck"), "-fy", "-z", und, img], [T("resize/resize2fs"), "-z", und, img, "12M"]][(idx // 2) % 4]
+    rc, out = e2v.sh(step, env=env, timeout=180)
+    log = [{"cmd": " ".join(os.path.basename(x) if "/" in x else x for x in step), "rc": rc}]
+    rc, out = e2v.sh([T("misc/e2undo"), und, img], timeout=120)
+    log.append({"cmd": "e2undo", "rc": rc})
+    now = open(img, "rb").read()
+    recipe = {"kind": "mmp", "bs": bs, "steps": log}
+    for f in (img, und):
+        if os.path.exists(f):
+            os.unlink(f)
+    if rc != 0:
+        return recipe, "e2undo exit %d: %s" % (rc, out[-200:])
+    if now != orig:
+        bad = [i for i in range(min(len(orig), len(now))) if now[i] != orig[i]]
+        return recipe, "after e2undo the device differs from its original contents (%d bytes differ, first at byte %s = block %s)" % (len(bad), bad[0] if bad else "-", bad[0] // bs if bad else "-")
+    return recipe, None
+
+
+def nowrite_chain(src, r, idx):
+    """the first recorded run writes nothing (debugfs -w -z with a read-only request); a second tool then records to the
+    same undo file, or e2undo is given the record of the empty run alone"""
+    os.makedirs(WORK, exist_ok=True)
+    img = os.path.join(WORK, "nw_%d.img" % idx)
+    und = os.path.join(WORK, "nw_%d.undo" % idx)
+    for f in (img, und):
+        if os.path.exists(f):
+            os.unlink(f)
+    T = lambda name: os.path.join(src, name)
+    env = e2v.tool_env(src, E2FSPROGS_UNDO_DIR=WORK)
+    bs = [1024, 4096][idx % 2]
+    e2v.sh([T("misc/mke2fs"), "-q", "-F", "-t", "ext4", "-b", str(bs), img, "16M"], env=env, timeout=120)
+    orig = open(img, "rb").read()
+    steps = [[T("debugfs/debugfs"), "-w", "-z", und, "-R", "stat /", img]]
+    if (idx // 2) % 2 == 0:
+        steps.append([T("misc/tune2fs"), "-z", und, "-L", "second", img])
+    log = []
+    for st in steps:
+        rc, out = e2v.sh(st, env=env, timeout=180)
+        log.append({"cmd": " ".join(os.path.basename(x) if "/" in x else x for x in st), "rc": rc})
+        if rc != 0:
+            return {"kind": "nowrite", "bs": bs, "steps": log}, "a recorded run after one that wrote nothing fails: %s" % out[-200:]
+    rc, out = e2v.sh([T("misc/e2undo"), und, img], timeout=120)
+    log.append({"cmd": "e2undo", "rc": rc})
+    now = open(img, "rb").read()
+    recipe = {"kind": "nowrite", "bs": bs, "steps": log}
+    for f in (img, und):
+        if os.path.exists(f):
+            os.unlink(f)
+    if rc != 0:
+        return recipe, "e2undo exit %d: %s" % (rc, out[-200:])
+    if now != orig:
+        return recipe, "after e2undo the device differs from its original contents"
+    return recipe, None
+
+
+def unfinished_mark_chain(src, r, idx):
+    """a recording run that ends without finishing its record (UNDO_IO_SIMULATE_UNFINISHED), on a filesystem at byte
+    offset 0 / 4096 / 1536 of the device: e2undo restores every block and marks that filesystem as needing a check"""
+    os.makedirs(WORK, exist_ok=True)
+    img = os.path.join(WORK, "um_%d.img" % idx)
+    und = os.path.join(WORK, "um_%d.undo" % idx)
+    for f in (img, und):
+        if os.path.exists(f):
+            os.unlink(f)
+    T = lambda name: os.path.join(src, name)
+    env = e2v.tool_env(src, E2FSPROGS_UNDO_DIR=WORK)
+    off = [0, 4096, 1536][idx % 3]
+    rr = e2v.rng(1, "c12um", idx)
+    open(img, "wb").write(bytes(rr.getrandbits(8) for _ in range(4096)) * (4 * 1024 + 8))
+    dev = img + ("?offset=%d" % off if off else "")
+    e2v.sh([T("misc/mke2fs"), "-q", "-F", "-t", "ext4", "-b", "1024"] + (["-E", "offset=%d" % off] if off else []) + [img, "12M"], env=env, timeout=120)
+    orig = open(img, "rb").read()
+    env2 = dict(env)
+    env2["UNDO_IO_SIMULATE_UNFINISHED"] = "1"
+    rc, out = e2v.sh([T("misc/tune2fs"), "-z", und, "-L", "unfinished", "-c", "9", dev], env=env2, timeout=120)
+    log = [{"cmd": "UNDO_IO_SIMULATE_UNFINISHED=1 tune2fs -z um.undo -L unfinished -c 9 img%s" % dev[len(img):], "rc": rc}]
+    rc, out = e2v.sh([T("misc/e2undo"), und, img], timeout=120)
+    log.append({"cmd": "e2undo", "rc": rc})
+    now = open(img, "rb").read()
+    recipe = {"kind": "unfinished", "fs_offset": off, "steps": log}
+    for f in (img, und):
+        if os.path.exists(f):
+            os.unlink(f)
+    if rc != 0:
+        return recipe, "e2undo exit %d: %s" % (rc, out[-200:])
+    sb = off + 1024
+    allowed = set(range(sb + 0x3A, sb + 0x3C)) | set(range(sb + 0x3FC, sb + 0x400)) | set(range(sb + 0x30, sb + 0x34)) | set(range(sb + 0x178, sb + 0x180))
+    bad = [i for i in range(len(orig)) if now[i] != orig[i] and i not in allowed]
+    if bad:
+        return recipe, "after the unfinished run, e2undo leaves %d bytes different from the original outside s_state/s_wtime/s_kbytes_written/s_checksum, first at %d" % (len(bad), bad[0])
+    if struct.unpack_from("<H", now, sb + 0x3A)[0] & 1:
+        return recipe, "e2undo replayed an unfinished record ('Incomplete undo record; run e2fsck') and left the filesystem at offset %d marked clean" % off
+    return recipe, None
+
+
 def replay_chain(src, r, idx):
     """e2fsck -z on a filesystem whose journal needs recovery (replay, then the restarted check): e2undo must bring back
     the bytes the device had before e2fsck started"""
@@ -572,6 +682,9 @@ def run(res, replay=None):
         outs += list(ex.map(lambda i: tail_chain(src, e2v.rng(seed, "c12tail", i), i), range(nsp)))
         outs += list(ex.map(lambda i: replay_chain(src, e2v.rng(seed, "c12replay", i), i), range(nsp)))
         outs += list(ex.map(lambda i: order_chain(src, e2v.rng(seed, "c12order", i), i), range(nsp)))
+        outs += list(ex.map(lambda i: mmp_chain(src, e2v.rng(seed, "c12mmp", i), i), range(8)))
+        outs += list(ex.map(lambda i: nowrite_chain(src, e2v.rng(seed, "c12nw", i), i), range(4)))
+        outs += list(ex.map(lambda i: unfinished_mark_chain(src, e2v.rng(seed, "c12um", i), i), range(3)))
     nch = len(outs)
     for i, (recipe, why) in enumerate(outs):
         if i < 2:
